@@ -7,11 +7,21 @@ def emit(*ev):
     NativeRT.events.append(tuple(ev))
 
 
+def _last(name):
+    """a native replay in real time may ask the environment more often than the proof-world path did (a wait loop spins
+    until its real deadline): the environment then keeps answering as it did the last time"""
+    k = NativeRT.names.get(name, 0) - 1
+    while k >= 0:
+        n = name if k == 0 else "%s#%d" % (name, k)
+        if n in NativeRT.oracle:
+            return NativeRT.oracle[n]
+        k -= 1
+    raise NativeAbort("oracle has no value for " + name)
+
+
 def choose_int(name, lo=None, hi=None):
     n = NativeRT.uniq(name)
-    if n not in NativeRT.oracle:
-        raise NativeAbort("oracle has no value for " + n)
-    v = int(NativeRT.oracle[n])
+    v = int(NativeRT.oracle[n] if n in NativeRT.oracle else _last(name))
     if (lo is not None and v < lo) or (hi is not None and v > hi):
         raise NativeAbort("oracle value out of range for " + n)
     return v
@@ -19,9 +29,7 @@ def choose_int(name, lo=None, hi=None):
 
 def choose_bool(name):
     n = NativeRT.uniq(name)
-    if n not in NativeRT.oracle:
-        raise NativeAbort("oracle has no value for " + n)
-    return bool(NativeRT.oracle[n])
+    return bool(NativeRT.oracle[n] if n in NativeRT.oracle else _last(name))
 
 
 def choose_bytes(name, n):
